@@ -31,11 +31,13 @@ func (h *Header[T]) IsPresent() bool {
 
 // Removes the matching header from the given HTTP header map and sets the value of this Header to nil.
 func (h *Header[T]) SyncRemove(headers http.Header) {
+	// The header leaves the map even if its value could not be parsed here (e.g. a date in one of the
+	// obsolete formats): the origin may well understand what this proxy did not.
+	delete(headers, h.name)
 	if h.value.IsNone() {
 		return
 	}
 
-	delete(headers, h.name)
 	h.value = typeutils.None[T]()
 	slog.Debug("Removed header from request:", "header", h.name)
 }
